@@ -409,6 +409,77 @@ def opHeaders (j : Json) : Json :=
     ("index_of", Json.arr (names.map (fun n => jOptNat (Headers.headerIndex hs n))).toArray),
     ("by_index", Json.arr ((List.range (getNat j "width")).map (fun i => vals (.index i))).toArray)]
 
+/-! op `interp`: a parsed match part (as the harness reads it off the real Matcher's tree), a scan
+    part, records, logic mode and run configuration → the whole run under the interpreter model -/
+partial def valueOfJson (j : Json) : Val.Value :=
+  match j with
+  | .null => .none
+  | .bool b => .bool b
+  | .str s => .str s
+  | .num _ => (match j.getInt? with | .ok i => .int i | .error _ => .none)
+  | .arr a => .list (a.toList.map valueOfJson)
+  | .obj _ =>
+    match j.getObjVal? "f" with
+    | .ok f => (match f.getInt? with | .ok i => .flt i | .error _ => .none)
+    | .error _ =>
+      match j.getObjVal? "d" with
+      | .ok (.arr kv) => .dict (kv.toList.map (fun p => match p with
+          | .arr a => (valueOfJson (a[0]?.getD Json.null), valueOfJson (a[1]?.getD Json.null))
+          | _ => (Val.Value.none, Val.Value.none)))
+      | _ => .none
+
+partial def jsonOfValue : Val.Value → Json
+  | .none => Json.null
+  | .bool b => toJson b
+  | .int i => toJson i
+  | .flt i => Json.mkObj [("f", toJson i)]
+  | .str s => toJson s
+  | .list xs => Json.arr (xs.map jsonOfValue).toArray
+  | .dict kv => Json.mkObj [("d", Json.arr (kv.map (fun p => Json.arr #[jsonOfValue p.1, jsonOfValue p.2])).toArray)]
+
+def strList (j : Json) (k : String) : List String :=
+  (getArr j k).toList.map (fun x => match x with | .str s => s | _ => "")
+
+partial def nodeOfJson (j : Json) : Interp.Node :=
+  let k := getStr j "k"
+  let id := getNat j "id"
+  if k == "term" then .term id (valueOfJson ((j.getObjVal? "v").toOption.getD Json.null))
+  else if k == "header" then
+    (match optNat j "index" with
+     | some i => .header id (.index i) (strList j "quals")
+     | none => .header id (.name (getStr j "name")) (strList j "quals"))
+  else if k == "var" then .var id (getStr j "name") (strList j "quals")
+  else if k == "fn" then .fn id (getStr j "name") (strList j "quals") ((getArr j "args").toList.map nodeOfJson)
+  else .eq id (getStr j "op") (nodeOfJson ((j.getObjVal? "l").toOption.getD Json.null))
+        (nodeOfJson ((j.getObjVal? "r").toOption.getD Json.null))
+
+def opInterp (j : Json) : Json :=
+  match parseScanText (getStr j "scan") with
+  | .error e => Json.mkObj [("error", toJson e)]
+  | .ok scan =>
+    let recs := (getArr j "recs").toList.map recOfJson
+    let prog := (getArr j "prog").toList.map nodeOfJson
+    let cfgj := (j.getObjVal? "cfg").toOption.getD (Json.mkObj [])
+    let cfg : Run.Cfg := { cwnm := getBool cfgj "cwnm", willRun := getBool cfgj "will_run" true,
+                           unmatchedAvail := getBool cfgj "unmatched_avail" }
+    let headers := Headers.headersOf PyStr.strip recs
+    let dataEnd : Int := (recs.foldl (fun (acc : Nat × Int × Int) r =>
+        let d := Run.trackData acc.1 r acc.2.1 acc.2.2
+        (acc.1 + 1, d.1, d.2)) (0, 0, 0)).2.1
+    let ms : Interp.MState := { prog := prog, headers := headers, dm := getBool j "and" true, scan := scan,
+                                dataEndCount := dataEnd, vars := [] }
+    let st0 : Run.LoopSt Interp.MState := { ms := ms }
+    let method := getStr j "method"
+    let (lines, st, acc) :=
+      if method == "collectN" then Run.collectN Interp.interpMatcher scan cfg (getNat j "n") recs st0
+      else if method == "next" then Run.nextRun Interp.interpMatcher scan cfg recs st0
+      else Run.collectRun Interp.interpMatcher scan cfg recs st0
+    Json.mkObj [("lines", Json.arr (lines.map jsonOfRec).toArray), ("flags", jsonOfFlags st.fl),
+      ("scan_count", toJson st.scanCount), ("unmatched", Json.arr (acc.unmatched.map jsonOfRec).toArray),
+      ("variables", Json.arr (st.ms.vars.map (fun p => Json.arr #[toJson p.1, jsonOfValue p.2])).toArray),
+      ("printouts", toJson st.ms.prints), ("headers", toJson headers),
+      ("unmodelled", match st.ms.bad with | some w => toJson w | none => Json.null)]
+
 def handle (line : String) : Json :=
   match Json.parse line with
   | .error e => Json.mkObj [("error", toJson s!"bad-json: {e}")]
@@ -427,6 +498,7 @@ def handle (line : String) : Json :=
     else if op == "archive" then opArchive j
     else if op == "chain" then opChain j
     else if op == "headers" then opHeaders j
+    else if op == "interp" then opInterp j
     else Json.mkObj [("error", toJson s!"bad-op: {op}")]
 
 partial def loop (h : IO.FS.Stream) (out : IO.FS.Stream) : IO Unit := do
